@@ -233,7 +233,7 @@ var C04 = register(&HistProp{ID: "C04",
 				return ops[0]
 			}
 		}
-		return Mix{Recv: 12, Replay: 2, Send: 2, Dep: 3, Replace: 1, RepDep: 1, Admin: 4, Ledger: 2, Multi: 1, Restart: 3, Rollback: 3,
+		return Mix{Recv: 12, Replay: 2, Send: 2, Dep: 3, Replace: 1, RepDep: 1, Admin: 4, Ledger: 2, Multi: 1, Restart: 3, Rollback: 3, AttProbe: 3,
 			RecvBroken: 25, DepValid: 80, ReplaceValid: 80, AdminHolder: 85, FaultPct: 4, AdminTypes: allAdmin}.next(g)
 	},
 	MinOps: 3, MaxOps: 30, New: func() Checker { return &c04{} },
@@ -779,7 +779,7 @@ func (c *c09) Summary(w *sim.World) (string, []string) {
 var C09 = register(&HistProp{ID: "C09",
 	Genesis: func(t *rapid.T) *sim.GenSpec { return sim.DrawGenesis(t, sim.GenOpts{BigBalances: true, Decoys: true}) },
 	Next: func(g *sim.G, i int) *sim.Op {
-		return Mix{Send: 5, Dep: 5, Replace: 7, RepDep: 7, Admin: 4, DepValid: 92, ReplaceValid: 50, AdminHolder: 90, Rollback: 5,
+		return Mix{Send: 5, Dep: 5, Replace: 7, RepDep: 7, Admin: 4, DepValid: 92, ReplaceValid: 50, AdminHolder: 90, Rollback: 5, AttProbe: 3,
 			AdminTypes: []string{"PauseBurningAndMinting", "UnpauseBurningAndMinting", "UnpauseBurningAndMinting", "PauseSendingAndReceivingMessages", "UnpauseSendingAndReceivingMessages", "UnpauseSendingAndReceivingMessages",
 				"EnableAttester", "DisableAttester", "UpdateSignatureThreshold", "UpdateMaxMessageBodySize"}}.next(g)
 	},
